@@ -173,6 +173,12 @@ def run(ctx):
     if len(body) != 1 or body[0]["e"].get("s", "").replace(" ", "") != "self.lexeme_start":
         r.violate("lexer", "Lexer::get_consumed_byte_count no longer returns exactly lexeme_start (with handlers at most the single unfinished token is held back)", "src/parser/lexer/mod.rs")
 
+    # ------------------------------------------------------------------ R09.5 (shared with C03 R03.8)
+    # a RequestLexeme answer makes the tag scanner hand the whole tag to the lexer, which holds its bytes back
+    # until the tag is complete: it may be given only where the specification-derived table needs the full tag
+    from .c03 import rule_foreign_feedback_table, spec_tables
+    rule_foreign_feedback_table(ctx, idx, spec_tables(), rid="R09.5")
+
     ctx.not_decided += ["schedule-independence of pending(k) as a relation between two runs", "flush_remaining_input after each parse is checked under C01 (R01.4)"]
     return ("Static analysis of the tokenizer automaton extracted from the macro-expanded StateMachine trait "
             "(%d states, %d leaves): typestate/dataflow of the tag-scanner's hold-back marks over every path of the automaton; "
